@@ -39,7 +39,7 @@ theorem grow_getBackendKsConn (sl : Nat) : MapsGrow s (getBackendKsConn ctx sl s
   split
   · exact MapsGrow.refl _
   · rename_i hget
-    generalize sliceGetConn ctx (ctx.cfg.user == .r) sl s.w = p
+    generalize sliceGetConn ctx false sl s.w = p
     obtain ⟨w1, r⟩ := p
     cases r with
     | none => exact MapsGrow.refl _
@@ -97,7 +97,7 @@ theorem maps_recycleBackendConns (pcs : CMap) :
 theorem MapsGrow.of_eq {a b : St} (h1 : b.txConns = a.txConns) (h2 : b.ksConns = a.ksConns) : MapsGrow a b :=
   ⟨⟨[], by simp [h1]⟩, ⟨[], by simp [h2]⟩⟩
 
-theorem grow_executeSQLs (fs : Bool) (slices : List Nat) : MapsGrow s (executeSQLs ctx fs slices s).1 := by
+theorem grow_executeSQLs (fs rs : Bool) (slices : List Nat) : MapsGrow s (executeSQLs ctx fs rs slices s).1 := by
   unfold executeSQLs
   split
   · exact MapsGrow.refl _
@@ -111,7 +111,7 @@ theorem grow_executeSQLs (fs : Bool) (slices : List Nat) : MapsGrow s (executeSQ
     | err => exact hg.trans (MapsGrow.of_eq (maps_recycleBackendConns pcs).1 (maps_recycleBackendConns pcs).2)
     | ok =>
       simp only
-      generalize execShard ctx (bySlice pcs).vals s1.w = x
+      generalize execShard ctx rs (bySlice pcs).vals s1.w = x
       obtain ⟨w2, ok⟩ := x
       exact hg.trans (MapsGrow.of_eq (maps_recycleBackendConns (s := { s1 with w := w2 }) pcs).1
         (maps_recycleBackendConns (s := { s1 with w := w2 }) pcs).2)
@@ -129,175 +129,189 @@ theorem clearKsConns_noReload (h : NoClear ctx s) : clearKsConns ctx s = s := by
   · have : decide (s.nsCur > s.nsOld) = false := by simp; omega
     simp [this]
 
-theorem maps_recycleBackendConn (pc : Option Nat) (hcl : ∀ c, pc = some c → isClosed c s.w = false)
-    (hnr : NoClear ctx s) :
-    (recycleBackendConn ctx pc s).txConns = s.txConns ∧ (recycleBackendConn ctx pc s).ksConns = s.ksConns := by
+/-! ## What the functions that recycle keep of the two maps (every history)
+
+  `Keep s s'`: the transaction's connections all stay (the map only grows); a
+  pinned connection stays too, unless it is closed and the session is outside a
+  transaction (a lost connection of a transaction stays where it is: the
+  session is then closed at the end of the command, `txConnLost`). -/
+
+theorem isClosed_ext {w w' : World} (h : Ext w w') {c : Nat} (hc : isClosed c w = true) : isClosed c w' = true := by
+  unfold isClosed at hc ⊢
+  cases hcn : w.conns[c]? with
+  | none => simp [hcn] at hc
+  | some cn =>
+    simp only [hcn] at hc
+    obtain ⟨cn', hcn', _, _, _, hcl⟩ := h c cn hcn
+    simp only [hcn']; exact hcl hc
+
+def TxGrow (s s' : St) : Prop := ∃ A, s'.txConns = s.txConns ++ A
+
+def KeepKs (s s' : St) : Prop :=
+  ∀ e ∈ s.ksConns, e ∈ s'.ksConns ∨ (isClosed e.2 s'.w = true ∧ s.isInTransaction = false)
+
+def Keep (s s' : St) : Prop := TxGrow s s' ∧ KeepKs s s'
+
+theorem KeepKs.of_eq {a b : St} (h : b.ksConns = a.ksConns) : KeepKs a b :=
+  fun e he => Or.inl (by rw [h]; exact he)
+
+theorem Keep.refl (s : St) : Keep s s := ⟨⟨[], by simp⟩, fun _ he => Or.inl he⟩
+
+theorem Keep.of_grow {a b : St} (h : MapsGrow a b) : Keep a b := by
+  obtain ⟨hA, ⟨B, hB⟩⟩ := h
+  exact ⟨hA, fun e he => Or.inl (by rw [hB]; exact List.mem_append_left _ he)⟩
+
+theorem Keep.of_eq {a b : St} (h1 : b.txConns = a.txConns) (h2 : b.ksConns = a.ksConns) : Keep a b :=
+  Keep.of_grow (MapsGrow.of_eq h1 h2)
+
+/-- a step that only takes connections, then one that keeps them -/
+theorem Keep.after_grow {a b c : St} (hg : MapsGrow a b) (hin : b.isInTransaction = a.isInTransaction)
+    (hk : Keep b c) : Keep a c := by
+  obtain ⟨⟨A, hA⟩, ⟨B, hB⟩⟩ := hg
+  obtain ⟨⟨A', hA'⟩, hks⟩ := hk
+  refine ⟨⟨A ++ A', by rw [hA', hA, List.append_assoc]⟩, ?_⟩
+  intro e he
+  rcases hks e (by rw [hB]; exact List.mem_append_left _ he) with h | ⟨h1, h2⟩
+  · exact Or.inl h
+  · exact Or.inr ⟨h1, by rw [← hin]; exact h2⟩
+
+theorem Keep.congr_left {a b c : St} (htx : b.txConns = a.txConns) (hks : b.ksConns = a.ksConns)
+    (hin : b.isInTransaction = a.isInTransaction) (hk : Keep b c) : Keep a c := by
+  obtain ⟨⟨A, hA⟩, hk2⟩ := hk
+  refine ⟨⟨A, by rw [hA, htx]⟩, ?_⟩
+  intro e he
+  rcases hk2 e (by rw [hks]; exact he) with h | ⟨h1, h2⟩
+  · exact Or.inl h
+  · exact Or.inr ⟨h1, by rw [← hin]; exact h2⟩
+
+theorem keep_recycleBackendConn (pc : Option Nat) (hnr : NoClear ctx s) : Keep s (recycleBackendConn ctx pc s) := by
   unfold recycleBackendConn
   split
-  · exact ⟨rfl, rfl⟩
+  · exact Keep.refl _
   · rename_i c
-    simp only [hcl c rfl, Bool.false_eq_true, if_false]
+    dsimp only
     split
-    · exact ⟨rfl, rfl⟩
+    · rename_i hcl
+      by_cases hin : s.isInTransaction = true
+      · rw [if_pos hin]; exact Keep.refl _
+      · rw [if_neg hin]
+        refine ⟨⟨[], by simp [forgetKsConn]⟩, ?_⟩
+        intro e he
+        by_cases hec : e.2 = c
+        · right
+          refine ⟨?_, by simpa using hin⟩
+          rw [hec]
+          exact isClosed_ext (ext_recycle c s.w) hcl
+        · left
+          simp only [forgetKsConn, List.mem_filter, bne_iff_ne, ne_eq]
+          exact ⟨he, hec⟩
     · split
-      · rw [clearKsConns_noReload hnr]; exact ⟨rfl, rfl⟩
-      · split <;> exact ⟨rfl, rfl⟩
+      · exact Keep.refl _
+      · split
+        · rw [clearKsConns_noReload hnr]; exact Keep.refl _
+        · split
+          · exact Keep.refl _
+          · exact Keep.of_eq rfl rfl
 
-theorem maps_recycleContinueConn (pc : Option Nat) (hcl : ∀ c, pc = some c → isClosed c s.w = false)
-    (hnr : NoClear ctx s) :
-    (recycleContinueConn ctx pc s).txConns = s.txConns ∧ (recycleContinueConn ctx pc s).ksConns = s.ksConns := by
+theorem keep_recycleContinueConn (pc : Option Nat) (hnr : NoClear ctx s) : Keep s (recycleContinueConn ctx pc s) := by
   unfold recycleContinueConn
   split
-  · exact ⟨rfl, rfl⟩
+  · exact Keep.refl _
   · rename_i c
-    simp only [hcl c rfl, Bool.false_eq_true, if_false]
+    dsimp only
     split
-    · rw [clearKsConns_noReload hnr]; exact ⟨rfl, rfl⟩
-    · split <;> exact ⟨rfl, rfl⟩
+    · rename_i hcl
+      by_cases hin : s.isInTransaction = true
+      · rw [if_pos hin]; exact Keep.refl _
+      · rw [if_neg hin]
+        refine ⟨⟨[], by simp [forgetKsConn]⟩, ?_⟩
+        intro e he
+        by_cases hec : e.2 = c
+        · right
+          refine ⟨?_, by simpa using hin⟩
+          rw [hec]
+          exact isClosed_ext (ext_recycle c s.w) hcl
+        · left
+          simp only [forgetKsConn, List.mem_filter, bne_iff_ne, ne_eq]
+          exact ⟨he, hec⟩
+    · split
+      · rw [clearKsConns_noReload hnr]; exact Keep.refl _
+      · split
+        · exact Keep.refl _
+        · exact Keep.of_eq rfl rfl
 
-theorem isClosed_executeUnshard_calm (ctx : Ctx) (hT : Calm ctx) (c d : Nat) (w : World) :
-    isClosed d (executeUnshardSQLInSlice ctx c w).1 = isClosed d w := by
-  unfold executeUnshardSQLInSlice executeSingleSQLInSlice
-  have h1 := isClosed_call ctx .U c d w (call_ne_z_of_calm ctx hT _ _ _)
-  have hnt1 : (call ctx .U c w).2 ≠ .t := by
-    unfold call; split
-    · simp
-    · exact callRes_ne_t ctx hT.noT _ _
-  generalize call ctx .U c w = p at h1 hnt1
-  obtain ⟨w1, r1⟩ := p
-  simp only at h1 hnt1 ⊢
-  split
-  · simp only [reduceCtorEq, if_false]; exact h1
-  · have h2 := isClosed_call ctx .X c d w1 (call_ne_z_of_calm ctx hT _ _ _)
-    have hnt2 : (call ctx .X c w1).2 ≠ .t := by
-      unfold call; split
-      · simp
-      · exact callRes_ne_t ctx hT.noT _ _
-    generalize call ctx .X c w1 = p2 at h2 hnt2
-    obtain ⟨w2, r2⟩ := p2
-    simp only at h2 hnt2 ⊢
-    rw [if_neg hnt2]
-    exact h2.trans h1
-
-/-- a connection the session owns is open (histories without timeouts and ping failures) -/
-theorem owned_open (hp : q.p = true) (h : Inv q cfg L s) {c : Nat} (hc : c ∈ (held s ++ L).vals) :
-    isClosed c s.w = false := by
-  obtain ⟨sl, hsl⟩ := mem_vals.1 hc
-  obtain ⟨cn, hcn, h0, _⟩ := h.wi.out _ hsl
-  simp only [isClosed, hcn]
-  exact h.wi.open_of_out hp hcn h0
-
-/-- what `getBackendConn` hands out is open -/
-theorem got_open {sl : Nat} {pc : Option Nat} {err : Bool} {s1 : St} (hp : q.p = true)
-    (hG : GotConn q cfg L sl s s1 pc err) : ∀ c, pc = some c → isClosed c s1.w = false := by
-  intro c hc
-  cases hG with
-  | none hpc _ _ => rw [hpc] at hc; cases hc
-  | held c' hpc _ hm hI =>
-    rw [hpc] at hc; cases hc
-    exact owned_open hp hI (by rw [vals_append]; exact List.mem_append_left _ (mem_vals.2 ⟨sl, hm⟩))
-  | loc c' hpc _ _ _ _ _ _ hcl _ => rw [hpc] at hc; cases hc; exact hcl
-
-theorem grow_executeSQL {sl : Nat} {fs : Bool} (hcfg : ctx.cfg = cfg) (hT : QH q ctx) (hp : q.p = true)
+theorem keep_executeSQL {sl : Nat} {fs : Bool} (hcfg : ctx.cfg = cfg) (hT : QH q ctx)
     (h : Inv q cfg [] s) (hnr : NoClear ctx s) :
-    MapsGrow s (executeSQL ctx fs sl s).1 := by
+    Keep s (executeSQL ctx fs sl s).1 := by
   unfold executeSQL
   generalize hg : getBackendConn ctx fs sl s = g
   obtain ⟨s1, pc, err⟩ := g
-  obtain ⟨hF, hMG, hG⟩ := inv_getBackendConn hcfg hT h (by simp [CMap.keys]) hg
-  have hopen := got_open hp hG
+  obtain ⟨hF, hMG, _⟩ := inv_getBackendConn hcfg hT h (by simp [CMap.keys]) hg
   have hnr1 : NoClear ctx s1 := hnr.imp id (fun h => by rw [hF.nsCur, hF.nsOld]; exact h)
+  have key : ∀ (pc' : Option Nat) (s2 : St), s2.txConns = s1.txConns → s2.ksConns = s1.ksConns →
+      s2.nsCur = s1.nsCur → s2.nsOld = s1.nsOld → s2.isInTransaction = s1.isInTransaction →
+      Keep s (recycleBackendConn ctx pc' s2) := by
+    intro pc' s2 htx hks hn1 hn2 hin
+    have hk := keep_recycleBackendConn (ctx := ctx) (s := s2) pc' (hnr1.imp id (fun h => by rw [hn1, hn2]; exact h))
+    exact Keep.after_grow hMG hF.inTx (Keep.congr_left htx hks hin hk)
   simp only
   split
-  · exact hMG.trans (MapsGrow.of_eq (maps_recycleBackendConn pc hopen hnr1).1 (maps_recycleBackendConn pc hopen hnr1).2)
+  · exact key pc s1 rfl rfl rfl rfl rfl
   · cases pc with
-    | none => exact hMG
+    | none => exact Keep.of_grow hMG
     | some c =>
       simp only
-      have hc1 := hopen c rfl
-      simp only [hc1, Bool.false_eq_true, if_false]
-      have hx := isClosed_executeUnshard_calm ctx (hT.p hp) c c s1.w
-      generalize executeUnshardSQLInSlice ctx c s1.w = x at hx
-      obtain ⟨w2, r⟩ := x
-      simp only at hx ⊢
-      have hc2 : isClosed c w2 = false := by rw [hx]; exact hc1
-      have key : ∀ s2 : St, s2.w = w2 → s2.txConns = s1.txConns → s2.ksConns = s1.ksConns → s2.nsCur = s1.nsCur →
-          s2.nsOld = s1.nsOld → MapsGrow s (recycleBackendConn ctx (some c) s2) := by
-        intro s2 hw htx hks hn1 hn2
-        have := maps_recycleBackendConn (ctx := ctx) (s := s2) (some c) (fun d hd => by cases hd; rw [hw]; exact hc2)
-          (hnr1.imp id (fun h => by rw [hn1, hn2]; exact h))
-        exact hMG.trans (MapsGrow.of_eq (this.1.trans htx) (this.2.trans hks))
       split
-      · exact key _ rfl rfl rfl rfl rfl
-      · split
-        · exact key _ rfl rfl rfl rfl rfl
-        · exact key _ rfl rfl rfl rfl rfl
+      · exact key _ s1 rfl rfl rfl rfl rfl
+      · generalize executeUnshardSQLInSlice ctx c s1.w = x
+        obtain ⟨w2, r⟩ := x
+        simp only
+        split
+        · exact key _ _ rfl rfl rfl rfl rfl
+        · split
+          · exact key _ _ rfl rfl rfl rfl rfl
+          · exact key _ _ rfl rfl rfl rfl rfl
 
-theorem grow_handleFieldList (hcfg : ctx.cfg = cfg) (hT : QH q ctx) (hp : q.p = true)
+theorem keep_handleFieldList (hcfg : ctx.cfg = cfg) (hT : QH q ctx)
     (h : Inv q cfg [] s) (hnr : NoClear ctx s) :
-    MapsGrow s (handleFieldList ctx s).1 := by
+    Keep s (handleFieldList ctx s).1 := by
   unfold handleFieldList
   generalize hg : getBackendConn ctx (ctx.cfg.user != .w) 0 s = g
   obtain ⟨s1, pc, err⟩ := g
-  obtain ⟨hF, hMG, hG⟩ := inv_getBackendConn hcfg hT h (by simp [CMap.keys]) hg
-  have hopen := got_open hp hG
+  obtain ⟨hF, hMG, _⟩ := inv_getBackendConn hcfg hT h (by simp [CMap.keys]) hg
   have hnr1 : NoClear ctx s1 := hnr.imp id (fun h => by rw [hF.nsCur, hF.nsOld]; exact h)
+  have key : ∀ (pc' : Option Nat) (s2 : St), s2.txConns = s1.txConns → s2.ksConns = s1.ksConns →
+      s2.nsCur = s1.nsCur → s2.nsOld = s1.nsOld → s2.isInTransaction = s1.isInTransaction →
+      Keep s (recycleBackendConn ctx pc' s2) := by
+    intro pc' s2 htx hks hn1 hn2 hin
+    have hk := keep_recycleBackendConn (ctx := ctx) (s := s2) pc' (hnr1.imp id (fun h => by rw [hn1, hn2]; exact h))
+    exact Keep.after_grow hMG hF.inTx (Keep.congr_left htx hks hin hk)
   cases err with
-  | true => exact hMG
+  | true => exact Keep.of_grow hMG
   | false =>
     cases pc with
-    | none => exact hMG
+    | none => exact Keep.of_grow hMG
     | some c =>
       simp only
-      have hc1 := hopen c rfl
-      have key : ∀ s2 : St, isClosed c s2.w = false → s2.txConns = s1.txConns → s2.ksConns = s1.ksConns →
-          s2.nsCur = s1.nsCur → s2.nsOld = s1.nsOld → MapsGrow s (recycleBackendConn ctx (some c) s2) := by
-        intro s2 hw htx hks hn1 hn2
-        have := maps_recycleBackendConn (ctx := ctx) (s := s2) (some c) (fun d hd => by cases hd; exact hw)
-          (hnr1.imp id (fun h => by rw [hn1, hn2]; exact h))
-        exact hMG.trans (MapsGrow.of_eq (this.1.trans htx) (this.2.trans hks))
-      have hU := isClosed_call ctx .U c c s1.w (call_ne_z_of_calm ctx (hT.p hp) _ _ _)
-      generalize call ctx .U c s1.w = pU at hU
+      generalize call ctx .U c s1.w = pU
       obtain ⟨wU, rU⟩ := pU
-      simp only at hU ⊢
+      simp only
       split
-      · exact key _ (by simp only; rw [hU]; exact hc1) rfl rfl rfl rfl
-      · have hFc := isClosed_call ctx .F c c wU (call_ne_z_of_calm ctx (hT.p hp) _ _ _)
-        generalize call ctx .F c wU = pF at hFc
+      · exact key _ _ rfl rfl rfl rfl rfl
+      · generalize call ctx .F c wU = pF
         obtain ⟨wF, rF⟩ := pF
-        simp only at hFc ⊢
-        exact key _ (by simp only; rw [hFc, hU]; exact hc1) rfl rfl rfl rfl
+        exact key _ _ rfl rfl rfl rfl rfl
 
 /-! ## Commands -/
 
-theorem pingAll_ok {O : CMap} {M : List Nat} (ctx : Ctx) (hT : QH q ctx) (hp : q.p = true) :
-    ∀ (cs : List Nat) (w : World), (∀ c ∈ cs, c ∈ O.vals) → WInv q O M w → (pingAll ctx cs w).2 = true := by
-  intro cs
-  induction cs with
-  | nil => intro w _ _; rfl
-  | cons c cs ih =>
-    intro w hsub h
-    have hok := call_ping_ok ctx hp hT h (hsub c (by simp))
-    have h2 := wi_call ctx .P hT h (hsub c (by simp))
-    simp only [pingAll]
-    generalize call ctx .P c w = p at hok h2
-    obtain ⟨w1, r⟩ := p
-    simp only at hok h2 ⊢
-    subst hok
-    simp only [Res.isOk, if_true]
-    exact ih w1 (fun d hd => hsub d (by simp [hd])) h2
-
-theorem maps_handleKeepSessionPing (hT : QH q ctx) (hp : q.p = true) (h : Inv q cfg [] s) :
-    (handleKeepSessionPing ctx s).1.txConns = s.txConns ∧ (handleKeepSessionPing ctx s).1.ksConns = s.ksConns ∧
-    (handleKeepSessionPing ctx s).2 = true := by
-  unfold handleKeepSessionPing
-  have hok := pingAll_ok ctx hT hp (iterOrder ctx.ord s.ksConns).vals s.w
-    (fun c hc => by simpa using ks_sub_held s c (iter_vals_sub _ _ c hc)) h.wi
-  generalize pingAll ctx (iterOrder ctx.ord s.ksConns).vals s.w = p at hok
+theorem maps_handleKeepSessionPing_ok (hok : (handleKeepSessionPing ctx s).2 = true) :
+    (handleKeepSessionPing ctx s).1.txConns = s.txConns ∧ (handleKeepSessionPing ctx s).1.ksConns = s.ksConns := by
+  unfold handleKeepSessionPing at hok ⊢
+  generalize pingAll ctx (iterOrder ctx.ord s.ksConns).vals s.w = p at hok ⊢
   obtain ⟨w1, ok⟩ := p
-  simp only at hok
-  subst hok
-  exact ⟨rfl, rfl, rfl⟩
+  cases ok with
+  | true => exact ⟨rfl, rfl⟩
+  | false => simp at hok
 
 /-- commands after which the transaction connections must still be there -/
 def Body.keepsTx : Body → Bool
@@ -330,7 +344,7 @@ theorem ns_executeCommand (hcfg : ctx.cfg = cfg) (hT : QH q ctx) (b : Body) (h :
     dsimp only
     split
     · exact ⟨rfl, rfl, rfl, rfl⟩
-    · exact (inv_executeSQLs (fromSlave := checkExecuteFromSlave ctx.cfg.user k) (slices := slices) hcfg hT hI).2.toNs
+    · exact (inv_executeSQLs (fromSlave := checkExecuteFromSlave ctx.cfg.user k) (rs := k != .w) (slices := slices) hcfg hT hI).2.toNs
   | «show» => exact (inv_executeSQL hcfg hT hI hc).2.toNs
   | fl => exact (inv_handleFieldList hcfg hT hI hc).2.toNs
   | begin =>
@@ -372,95 +386,119 @@ theorem ns_executeCommand (hcfg : ctx.cfg = cfg) (hT : QH q ctx) (b : Body) (h :
   | disc => exact ⟨rfl, rfl, rfl, rfl⟩
   | nsc => exact ⟨rfl, rfl, rfl, rfl⟩
 
-/-- the pinned connections survive every command; the transaction connections
-    survive the commands that do not end the transaction (histories without
-    timeouts and ping failures, no reload pending) -/
-theorem grow_executeCommand (hcfg : ctx.cfg = cfg) (hT : QH q ctx) (hp : q.p = true) (b : Body)
+/-- what `executeCommand` keeps: the transaction's connections unless the command
+    ends the transaction; the pinned connections (`KeepKs`) unless the answer is
+    `badconn` (a failed keep-session ping, after which the session is closed);
+    and what the later steps need to know about the flags -/
+def CmdKeeps (b : Body) (s : St) (p : St × Resp) : Prop :=
+  (b.keepsTx = true → TxGrow s p.1) ∧ (p.2 = .badconn ∨ KeepKs s p.1) ∧
+  (p.1.continueConn = none ∨ p.1.isInTransaction = s.isInTransaction) ∧
+  (b.keepsTx = true → s.isInTransaction = true → p.1.isInTransaction = true)
+
+theorem cmdKeeps_of_keep {b : Body} {p : St × Resp} (hk : Keep s p.1)
+    (hin : p.1.isInTransaction = s.isInTransaction) : CmdKeeps b s p :=
+  ⟨fun _ => hk.1, Or.inr hk.2, Or.inr hin, fun _ h => by rw [hin]; exact h⟩
+
+theorem cmdKeeps_same {b : Body} {p : St × Resp} (htx : p.1.txConns = s.txConns) (hks : p.1.ksConns = s.ksConns)
+    (hc : p.1.continueConn = none) (hin : s.isInTransaction = true → p.1.isInTransaction = true) : CmdKeeps b s p :=
+  ⟨fun _ => ⟨[], by simp [htx]⟩, Or.inr (KeepKs.of_eq hks), Or.inl hc, fun _ h => hin h⟩
+
+theorem cmdKeeps_endTx {b : Body} {p : St × Resp} (hb : b.keepsTx = false) (hks : p.1.ksConns = s.ksConns)
+    (hc : p.1.continueConn = none) : CmdKeeps b s p := by
+  refine ⟨?_, Or.inr (KeepKs.of_eq hks), Or.inl hc, ?_⟩
+  · intro h; rw [hb] at h; cases h
+  · intro h; rw [hb] at h; cases h
+
+theorem keep_executeCommand (hcfg : ctx.cfg = cfg) (hT : QH q ctx) (b : Body)
     (h : Idle q cfg s) (hnr : NoClear ctx s) :
-    (∃ B, (executeCommand ctx b s).1.ksConns = s.ksConns ++ B) ∧
-    (b.keepsTx = true → ∃ A, (executeCommand ctx b s).1.txConns = s.txConns ++ A) ∧
-    (executeCommand ctx b s).2 ≠ .badconn := by
+    CmdKeeps b s (executeCommand ctx b s) := by
   have hI := h.inv
-  have grow : ∀ {s1 : St}, MapsGrow s s1 → (∃ B, s1.ksConns = s.ksConns ++ B) ∧ (b.keepsTx = true → ∃ A, s1.txConns = s.txConns ++ A) :=
-    fun hm => ⟨hm.2, fun _ => hm.1⟩
-  have yes_ne : ∀ (r : Resp) (p : St × Bool), r ≠ .badconn → (if p.2 then r else Resp.err) ≠ .badconn := by
-    intro r p hr; split
-    · exact hr
-    · simp
+  have hc := h.cont
   unfold executeCommand
   dsimp only
   cases b with
   | qu k =>
     dsimp only
     split
-    · exact ⟨⟨[], by simp⟩, fun _ => ⟨[], by simp⟩, by simp⟩
-    · have := grow (grow_executeSQL (fs := checkExecuteFromSlave ctx.cfg.user k) (sl := 0) hcfg hT hp hI hnr)
-      exact ⟨this.1, this.2, yes_ne _ _ (by split <;> simp)⟩
+    · exact cmdKeeps_same rfl rfl hc id
+    · exact cmdKeeps_of_keep (p := (_, _)) (keep_executeSQL hcfg hT hI hnr) (inv_executeSQL hcfg hT hI hc).2.inTx
   | qs k slices =>
     dsimp only
     split
-    · exact ⟨⟨[], by simp⟩, fun _ => ⟨[], by simp⟩, by simp⟩
-    · have := grow (grow_executeSQLs (ctx := ctx) (s := s) (checkExecuteFromSlave ctx.cfg.user k) slices)
-      exact ⟨this.1, this.2, yes_ne _ _ (by split <;> simp)⟩
+    · exact cmdKeeps_same rfl rfl hc id
+    · exact cmdKeeps_of_keep (p := (_, _))
+        (Keep.of_grow (grow_executeSQLs (ctx := ctx) (s := s) (checkExecuteFromSlave ctx.cfg.user k) (k != .w) slices))
+        (inv_executeSQLs (fromSlave := checkExecuteFromSlave ctx.cfg.user k) (rs := k != .w) (slices := slices) hcfg hT hI).2.inTx
   | «show» =>
-    have := grow (grow_executeSQL (fs := (ctx.cfg.user != .w)) (sl := 0) hcfg hT hp hI hnr)
-    exact ⟨this.1, this.2, yes_ne _ _ (by simp)⟩
+    exact cmdKeeps_of_keep (p := (_, _)) (keep_executeSQL hcfg hT hI hnr) (inv_executeSQL hcfg hT hI hc).2.inTx
   | fl =>
-    have := grow (grow_handleFieldList hcfg hT hp hI hnr)
-    exact ⟨this.1, this.2, yes_ne _ _ (by simp)⟩
+    exact cmdKeeps_of_keep (p := (_, _)) (keep_handleFieldList hcfg hT hI hnr) (inv_handleFieldList hcfg hT hI hc).2.inTx
   | begin =>
-    have e : (handleBegin ctx s).1.ksConns = s.ksConns ∧ (handleBegin ctx s).1.txConns = s.txConns := by
+    have e : (handleBegin ctx s).1.ksConns = s.ksConns ∧ (handleBegin ctx s).1.txConns = s.txConns ∧
+        (s.isInTransaction = true → (handleBegin ctx s).1.isInTransaction = true) := by
       unfold handleBegin; dsimp only; split
-      · exact ⟨rfl, rfl⟩
-      · split <;> exact ⟨rfl, rfl⟩
-    exact ⟨⟨[], by simpa using e.1⟩, fun _ => ⟨[], by simpa using e.2⟩, yes_ne _ _ (by simp)⟩
-  | commit => exact ⟨⟨[], by simp [commit]⟩, fun hk => by simp [Body.keepsTx] at hk, yes_ne _ _ (by simp)⟩
-  | rollback => exact ⟨⟨[], by simp [rollback]⟩, fun hk => by simp [Body.keepsTx] at hk, yes_ne _ _ (by simp)⟩
+      · exact ⟨rfl, rfl, id⟩
+      · split
+        · exact ⟨rfl, rfl, id⟩
+        · exact ⟨rfl, rfl, fun _ => by simp [St.isInTransaction]⟩
+    exact cmdKeeps_same (p := (_, _)) e.2.1 e.1 (by rw [cont_handleBegin]; exact hc) e.2.2
+  | commit => exact cmdKeeps_endTx (p := (_, _)) rfl rfl hc
+  | rollback => exact cmdKeeps_endTx (p := (_, _)) rfl rfl hc
   | ac v =>
-    have e : (handleSetAutoCommit ctx v s).1.ksConns = s.ksConns ∧
-        (v = false → (handleSetAutoCommit ctx v s).1.txConns = s.txConns) := by
-      unfold handleSetAutoCommit; split
-      · rename_i hv; exact ⟨rfl, fun h => by rw [h] at hv; cases hv⟩
-      · exact ⟨rfl, fun _ => rfl⟩
-    refine ⟨⟨[], by simpa using e.1⟩, fun hk => ⟨[], ?_⟩, yes_ne _ _ (by simp)⟩
     cases v with
-    | true => simp [Body.keepsTx] at hk
-    | false => simpa using e.2 rfl
+    | true =>
+      refine cmdKeeps_endTx (p := (_, _)) rfl ?_ (by rw [cont_handleSetAutoCommit]; exact hc)
+      simp [handleSetAutoCommit]
+    | false =>
+      refine cmdKeeps_same (p := (_, _)) ?_ ?_ (by rw [cont_handleSetAutoCommit]; exact hc) ?_
+      · simp [handleSetAutoCommit]
+      · simp [handleSetAutoCommit]
+      · intro _; simp [handleSetAutoCommit, St.isInTransaction]
   | sp n =>
-    have e : (handleSavepoint ctx false n s).1.ksConns = s.ksConns ∧ (handleSavepoint ctx false n s).1.txConns = s.txConns := by
+    have e : (handleSavepoint ctx false n s).1.ksConns = s.ksConns ∧ (handleSavepoint ctx false n s).1.txConns = s.txConns ∧
+        (handleSavepoint ctx false n s).1.isInTransaction = s.isInTransaction := by
       unfold handleSavepoint; dsimp only
       split
       · split
-        · split <;> exact ⟨rfl, rfl⟩
-        · exact ⟨rfl, rfl⟩
-      · exact ⟨rfl, rfl⟩
-    exact ⟨⟨[], by simpa using e.1⟩, fun _ => ⟨[], by simpa using e.2⟩, yes_ne _ _ (by simp)⟩
+        · split <;> exact ⟨rfl, rfl, rfl⟩
+        · exact ⟨rfl, rfl, rfl⟩
+      · exact ⟨rfl, rfl, rfl⟩
+    exact cmdKeeps_same (p := (_, _)) e.2.1 e.1 (by rw [cont_handleSavepoint]; exact hc) (fun h => by rw [e.2.2]; exact h)
   | rel n =>
-    have e : (handleSavepoint ctx true n s).1.ksConns = s.ksConns ∧ (handleSavepoint ctx true n s).1.txConns = s.txConns := by
+    have e : (handleSavepoint ctx true n s).1.ksConns = s.ksConns ∧ (handleSavepoint ctx true n s).1.txConns = s.txConns ∧
+        (handleSavepoint ctx true n s).1.isInTransaction = s.isInTransaction := by
       unfold handleSavepoint; dsimp only
       split
       · split
-        · split <;> exact ⟨rfl, rfl⟩
-        · exact ⟨rfl, rfl⟩
-      · exact ⟨rfl, rfl⟩
-    exact ⟨⟨[], by simpa using e.1⟩, fun _ => ⟨[], by simpa using e.2⟩, yes_ne _ _ (by simp)⟩
+        · split <;> exact ⟨rfl, rfl, rfl⟩
+        · exact ⟨rfl, rfl, rfl⟩
+      · exact ⟨rfl, rfl, rfl⟩
+    exact cmdKeeps_same (p := (_, _)) e.2.1 e.1 (by rw [cont_handleSavepoint]; exact hc) (fun h => by rw [e.2.2]; exact h)
   | rbt n =>
-    have e : (rollbackSavepoint ctx n s).1.ksConns = s.ksConns ∧ (rollbackSavepoint ctx n s).1.txConns = s.txConns := by
-      unfold rollbackSavepoint; dsimp only; split <;> exact ⟨rfl, rfl⟩
-    exact ⟨⟨[], by simpa using e.1⟩, fun _ => ⟨[], by simpa using e.2⟩, yes_ne _ _ (by simp)⟩
+    have e : (rollbackSavepoint ctx n s).1.ksConns = s.ksConns ∧ (rollbackSavepoint ctx n s).1.txConns = s.txConns ∧
+        (rollbackSavepoint ctx n s).1.isInTransaction = s.isInTransaction := by
+      unfold rollbackSavepoint; dsimp only; split <;> exact ⟨rfl, rfl, rfl⟩
+    exact cmdKeeps_same (p := (_, _)) e.2.1 e.1 (by rw [cont_rollbackSavepoint]; exact hc) (fun h => by rw [e.2.2]; exact h)
   | ping =>
     dsimp only
     split
-    · obtain ⟨h1, h2, h3⟩ := maps_handleKeepSessionPing hT hp hI
-      generalize handleKeepSessionPing ctx s = pp at h1 h2 h3
+    · have hcp := cont_handleKeepSessionPing (ctx := ctx) (s := s)
+      have hfl : (handleKeepSessionPing ctx s).1.isInTransaction = s.isInTransaction ∧
+          (handleKeepSessionPing ctx s).1.txConns = s.txConns := by
+        unfold handleKeepSessionPing; dsimp only; split <;> exact ⟨rfl, rfl⟩
+      have hok := maps_handleKeepSessionPing_ok (ctx := ctx) (s := s)
+      generalize handleKeepSessionPing ctx s = pp at hcp hfl hok
       obtain ⟨s1, ok⟩ := pp
-      simp only at h1 h2 h3 ⊢
-      subst h3
-      exact ⟨⟨[], by simp [h2]⟩, fun _ => ⟨[], by simp [h1]⟩, by simp⟩
-    · exact ⟨⟨[], by simp⟩, fun _ => ⟨[], by simp⟩, by simp⟩
-  | quit => exact ⟨⟨[], by simp [rollback]⟩, fun hk => by simp [Body.keepsTx] at hk, by simp⟩
-  | disc => exact ⟨⟨[], by simp⟩, fun hk => by simp [Body.keepsTx] at hk, by simp⟩
-  | nsc => exact ⟨⟨[], by simp⟩, fun _ => ⟨[], by simp⟩, by simp⟩
+      simp only at hcp hfl hok ⊢
+      cases ok with
+      | true =>
+        exact cmdKeeps_same (p := (_, _)) hfl.2 (hok rfl).2 (by rw [hcp]; exact hc) (fun h => by rw [hfl.1]; exact h)
+      | false =>
+        exact ⟨fun _ => ⟨[], by simp [hfl.2]⟩, Or.inl rfl, Or.inl (by rw [hcp]; exact hc), fun _ h => by rw [hfl.1]; exact h⟩
+    · exact cmdKeeps_same rfl rfl hc id
+  | quit => exact cmdKeeps_endTx (p := (_, _)) rfl rfl hc
+  | disc => exact cmdKeeps_endTx rfl rfl hc
+  | nsc => exact cmdKeeps_same rfl rfl hc id
 
 theorem ns_recycleContinueConn (pc : Option Nat) : SameNs s (recycleContinueConn ctx pc s) := by
   unfold recycleContinueConn
@@ -468,49 +506,60 @@ theorem ns_recycleContinueConn (pc : Option Nat) : SameNs s (recycleContinueConn
   · exact ⟨rfl, rfl, rfl, rfl⟩
   · dsimp only
     split
-    · have := (flags_recycleTx (s := s) (ctx := ctx) ‹Nat›).toNs
-      exact ⟨this.closed, this.nsOld, this.nsCtx, this.nsCur⟩
+    · split <;> exact ⟨rfl, rfl, rfl, rfl⟩
     · split
       · exact flags_clearKsConns.toNs
       · split <;> exact ⟨rfl, rfl, rfl, rfl⟩
 
-/-- `writeResponse` leaves the maps alone -/
-theorem maps_writeResponse (hT : QH q ctx) (hp : q.p = true) (r : Resp) (h : Mid q cfg s) (hnr : NoClear ctx s) :
-    (writeResponse ctx r s).1.txConns = s.txConns ∧ (writeResponse ctx r s).1.ksConns = s.ksConns ∧
-    SameNs s (writeResponse ctx r s).1 := by
+theorem intx_recycleContinueConn (pc : Option Nat) :
+    (recycleContinueConn ctx pc s).isInTransaction = s.isInTransaction := by
+  unfold recycleContinueConn
+  split
+  · rfl
+  · dsimp only
+    split
+    · split <;> rfl
+    · split
+      · exact flags_clearKsConns.inTx
+      · split <;> rfl
+
+theorem Keep.congr_right {a b c : St} (htx : c.txConns = b.txConns) (hks : c.ksConns = b.ksConns)
+    (hw : c.w = b.w) (hk : Keep a b) : Keep a c := by
+  obtain ⟨⟨A, hA⟩, hk2⟩ := hk
+  refine ⟨⟨A, by rw [htx, hA]⟩, ?_⟩
+  intro e he
+  rcases hk2 e he with h | ⟨h1, h2⟩
+  · exact Or.inl (by rw [hks]; exact h)
+  · exact Or.inr ⟨by rw [hw]; exact h1, h2⟩
+
+/-- `writeResponse` keeps the maps (`Keep`) and the flags -/
+theorem keep_writeResponse (r : Resp) (hnr : NoClear ctx s) :
+    Keep s (writeResponse ctx r s).1 ∧ SameNs s (writeResponse ctx r s).1 ∧
+    (writeResponse ctx r s).1.isInTransaction = s.isInTransaction := by
   have e : (writeResponse ctx r s).1 =
       (fun s1 : St => ({ (recycleContinueConn ctx s1.continueConn s1) with continueConn := none } : St))
       (match s.continueConn with
-       | some c => if (r == .res || r == .ok) && moreRows c s.w then { s with w := (call ctx .M c s.w).1 } else s
+       | some c => if r == .res || r == .ok then { s with w := streamRest ctx c s.w } else s
        | none => s) := rfl
   rw [e]
   generalize hs1 : (match s.continueConn with
-       | some c => if (r == Resp.res || r == Resp.ok) && moreRows c s.w then { s with w := (call ctx .M c s.w).1 } else s
+       | some c => if r == Resp.res || r == Resp.ok then { s with w := streamRest ctx c s.w } else s
        | none => s) = s1
   have hsame : s1.txConns = s.txConns ∧ s1.ksConns = s.ksConns ∧ s1.nsCur = s.nsCur ∧ s1.nsOld = s.nsOld ∧
-      s1.nsCtx = s.nsCtx ∧ s1.closed = s.closed ∧ s1.continueConn = s.continueConn := by
+      s1.nsCtx = s.nsCtx ∧ s1.closed = s.closed ∧ s1.isInTransaction = s.isInTransaction := by
     rw [← hs1]; split
     · split <;> exact ⟨rfl, rfl, rfl, rfl, rfl, rfl, rfl⟩
     · exact ⟨rfl, rfl, rfl, rfl, rfl, rfl, rfl⟩
-  have hopen : ∀ c, s1.continueConn = some c → isClosed c s1.w = false := by
-    intro c hc
-    rw [hsame.2.2.2.2.2.2] at hc
-    have hcs : isClosed c s.w = false := by
-      simp only [Mid, hc] at h
-      rcases h with ⟨hm, hI⟩ | ⟨sl, _, _, hI⟩
-      · exact owned_open hp hI (by simpa using hm)
-      · exact owned_open hp hI (by simp [CMap.vals])
-    rw [← hs1]; simp only [hc]
-    split
-    · simp only; rw [isClosed_call _ _ _ _ _ (call_ne_z_of_calm ctx (hT.p hp) _ _ _)]; exact hcs
-    · exact hcs
-  have hm := maps_recycleContinueConn (ctx := ctx) (s := s1) s1.continueConn hopen
+  have hk := keep_recycleContinueConn (ctx := ctx) (s := s1) s1.continueConn
     (hnr.imp id (fun h => by rw [hsame.2.2.1, hsame.2.2.2.1]; exact h))
   have hn := ns_recycleContinueConn (ctx := ctx) (s := s1) s1.continueConn
+  have hi := intx_recycleContinueConn (ctx := ctx) (s := s1) s1.continueConn
   simp only
-  refine ⟨hm.1.trans hsame.1, hm.2.trans hsame.2.1, ?_⟩
-  exact ⟨hn.closed.trans hsame.2.2.2.2.2.1, hn.nsOld.trans hsame.2.2.2.1, hn.nsCtx.trans hsame.2.2.2.2.1,
-    hn.nsCur.trans hsame.2.2.1⟩
+  refine ⟨?_, ?_, ?_⟩
+  · exact Keep.congr_left hsame.1 hsame.2.1 hsame.2.2.2.2.2.2 (Keep.congr_right rfl rfl rfl hk)
+  · exact ⟨hn.closed.trans hsame.2.2.2.2.2.1, hn.nsOld.trans hsame.2.2.2.1, hn.nsCtx.trans hsame.2.2.2.2.1,
+      hn.nsCur.trans hsame.2.2.1⟩
+  · exact hi.trans hsame.2.2.2.2.2.2
 
 theorem shouldClear_false (h : ctx.cfg.ks = false ∨ s.nsCtx ≤ s.nsOld) : shouldClear ctx s = false := by
   unfold shouldClear
@@ -519,14 +568,35 @@ theorem shouldClear_false (h : ctx.cfg.ks = false ∨ s.nsCtx ≤ s.nsOld) : sho
   · have : decide (s.nsCtx > s.nsOld) = false := by simp; omega
     simp [this]
 
-/-- one command, no reload pending, no timeout and no ping failure: the session
-    stays open, its pinned connections stay, and its transaction connections
-    stay unless the command ends the transaction -/
-theorem grow_runCommand (hcfg : ctx.cfg = cfg) (hT : QH q ctx) (hp : q.p = true) (b : Body) (hb : b ≠ .quit)
+theorem writeResponse_none (r : Resp) (hc : s.continueConn = none) :
+    (writeResponse ctx r s).1 = { s with continueConn := none } := by
+  unfold writeResponse
+  simp only [hc, recycleContinueConn]
+
+theorem closed_sessionClose : (sessionClose ctx s).closed = true := by
+  unfold sessionClose
+  split
+  · assumption
+  · rfl
+
+/-- what one command leaves of the state it found (`s`), for every history: the
+    transaction's connections stay unless the command ends the transaction or
+    the session is closed; a pinned connection stays unless the session is
+    closed, or the connection is closed and the session was not in a transaction;
+    no reload is pending afterwards; the session is still in its transaction -/
+structure CmdResult (b : Body) (s s' : St) : Prop where
+  tx : b.keepsTx = true → ∀ e ∈ s.txConns, e ∈ s'.txConns ∨ s'.closed = true
+  ks : ∀ e ∈ s.ksConns, e ∈ s'.ksConns ∨ s'.closed = true ∨ (isClosed e.2 s'.w = true ∧ s.isInTransaction = false)
+  ns : s'.closed = true ∨ s'.nsCur ≤ s'.nsOld
+  intx : b.keepsTx = true → s.isInTransaction = true → s'.closed = true ∨ s'.isInTransaction = true
+
+theorem CmdResult.of_closed {b : Body} {s s' : St} (h : s'.closed = true) : CmdResult b s s' :=
+  ⟨fun _ _ _ => Or.inr h, fun _ _ => Or.inr (Or.inl h), Or.inl h, fun _ _ => Or.inl h⟩
+
+/-- one command, no reload pending; every fault, timeout and iteration order -/
+theorem keep_runCommand (hcfg : ctx.cfg = cfg) (hT : QH q ctx) (b : Body)
     (h : Idle q cfg s) (hncl : s.closed = false) (hnr : NoClear ctx s) :
-    (∃ B, (runCommand ctx b s).1.ksConns = s.ksConns ++ B) ∧
-    (b.keepsTx = true → ∃ A, (runCommand ctx b s).1.txConns = s.txConns ++ A) ∧
-    (runCommand ctx b s).1.closed = false ∧ (runCommand ctx b s).1.nsCur ≤ (runCommand ctx b s).1.nsOld := by
+    CmdResult b s (runCommand ctx b s).1 := by
   unfold runCommand
   dsimp only
   have e1 : clearKsConns ctx { s with nsCtx := s.nsCur } = { s with nsCtx := s.nsCur } :=
@@ -536,46 +606,79 @@ theorem grow_runCommand (hcfg : ctx.cfg = cfg) (hT : QH q ctx) (hp : q.p = true)
   generalize hs2 : (if !({ s with nsCtx := s.nsCur } : St).isInTransaction then
       { ({ s with nsCtx := s.nsCur } : St) with nsOld := ({ s with nsCtx := s.nsCur } : St).nsCtx }
       else ({ s with nsCtx := s.nsCur } : St)) = s2
-  have f2 : s2.txConns = s.txConns ∧ s2.ksConns = s.ksConns ∧ s2.closed = false ∧ NoClear ctx s2 ∧
+  have f2 : s2.txConns = s.txConns ∧ s2.ksConns = s.ksConns ∧ s2.isInTransaction = s.isInTransaction ∧ NoClear ctx s2 ∧
       s2.nsCtx = s2.nsCur ∧ Idle q cfg s2 := by
     rw [← hs2]; split
-    · exact ⟨rfl, rfl, hncl, Or.inr (Nat.le_refl _), rfl, idle_of_eq_fields h0 rfl rfl rfl rfl rfl rfl rfl⟩
-    · exact ⟨rfl, rfl, hncl, hnr, rfl, h0⟩
-  obtain ⟨htx2, hks2, hcl2, hnr2, hctx2, hI2⟩ := f2
+    · exact ⟨rfl, rfl, rfl, Or.inr (Nat.le_refl _), rfl, idle_of_eq_fields h0 rfl rfl rfl rfl rfl rfl rfl⟩
+    · exact ⟨rfl, rfl, rfl, hnr, rfl, h0⟩
+  obtain ⟨htx2, hks2, hin2, hnr2, hctx2, hI2⟩ := f2
   have hsc2 : shouldClear ctx s2 = false := shouldClear_false (hnr2.imp id (fun h => by rw [hctx2]; exact h))
   simp only [hsc2, Bool.false_eq_true, if_false]
-  obtain ⟨hgk, hgt, hresp⟩ := grow_executeCommand hcfg hT hp b hI2 hnr2
+  have hk := keep_executeCommand hcfg hT b hI2 hnr2
   have hns3 := ns_executeCommand hcfg hT b hI2
-  have hmid := mid_executeCommand hcfg hT b hI2
-  generalize executeCommand ctx b s2 = p3 at hgk hgt hresp hns3 hmid
+  generalize executeCommand ctx b s2 = p3 at hk hns3
   obtain ⟨s3, r⟩ := p3
-  simp only at hgk hgt hresp hns3 hmid ⊢
+  obtain ⟨hk1, hk2, hk3, hk4⟩ := hk
+  simp only at hk1 hk2 hk3 hk4 hns3 ⊢
   have hnr3 : NoClear ctx s3 := hnr2.imp id (fun h => by rw [hns3.nsCur, hns3.nsOld]; exact h)
-  obtain ⟨hwt, hwk, hns4⟩ := maps_writeResponse (ctx := ctx) hT hp r hmid hnr3
-  have hdel : (writeResponse ctx r s3).2 = true := by
-    unfold writeResponse; simp only [bne_iff_ne, ne_eq, decide_eq_true_eq]; exact hresp
-  generalize writeResponse ctx r s3 = p4 at hwt hwk hns4 hdel
+  obtain ⟨hw, hns4, hin4⟩ := keep_writeResponse (ctx := ctx) (s := s3) r hnr3
+  have hx4 := ext_writeResponse (ctx := ctx) (s := s3) r
+  have hdel : (writeResponse ctx r s3).2 = (r != .badconn) := by unfold writeResponse; rfl
+  have hwn : s3.continueConn = none → (writeResponse ctx r s3).1.ksConns = s3.ksConns := by
+    intro hc; rw [writeResponse_none r hc]
+  generalize writeResponse ctx r s3 = p4 at hw hns4 hin4 hx4 hdel hwn
   obtain ⟨s4, delivered⟩ := p4
-  simp only at hwt hwk hns4 hdel ⊢
+  simp only at hw hns4 hin4 hx4 hdel hwn ⊢
   subst hdel
-  have hsc4 : shouldClear ctx s4 = false :=
-    shouldClear_false (hnr2.imp id (fun h => by rw [hns4.nsCtx, hns4.nsOld, hns3.nsCtx, hns3.nsOld, hctx2]; exact h))
-  have hbq : (b == Body.quit) = false := by simpa using hb
-  simp only [Bool.not_true, Bool.false_eq_true, if_false, hbq, hsc4, Bool.or_self]
-  refine ⟨?_, ?_, ?_, ?_⟩
-  · obtain ⟨B, hB⟩ := hgk
-    exact ⟨B, by rw [hwk, hB, hks2]⟩
-  · intro hk
-    obtain ⟨A, hA⟩ := hgt hk
-    exact ⟨A, by rw [hwt, hA, htx2]⟩
-  · rw [hns4.closed, hns3.closed]; exact hcl2
-  · show s4.nsCur ≤ s4.nsCtx
-    rw [hns4.nsCur, hns4.nsCtx, hns3.nsCur, hns3.nsCtx, hctx2]; exact Nat.le_refl _
+  by_cases hbad : r = .badconn
+  · -- the response was not delivered: the session is closed
+    subst hbad
+    simp only [bne_self_eq_false, Bool.not_false, if_true]
+    exact CmdResult.of_closed closed_sessionClose
+  · have hd : (r != Resp.badconn) = true := by simpa using hbad
+    simp only [hd, Bool.not_true, Bool.false_eq_true, if_false]
+    generalize hfin : (if (b == Body.quit || shouldClear ctx s4 || txConnLost s4) = true then sessionClose ctx s4 else s4) = s5
+    have h5 : s5.closed = true ∨ s5 = s4 := by
+      rw [← hfin]; split
+      · exact Or.inl closed_sessionClose
+      · exact Or.inr rfl
+    rcases h5 with h5 | h5
+    · exact CmdResult.of_closed h5
+    · subst h5
+      refine ⟨?_, ?_, ?_, ?_⟩
+      · intro hkt e he
+        left
+        obtain ⟨A, hA⟩ := hk1 hkt
+        obtain ⟨A', hA'⟩ := hw.1
+        show e ∈ s5.txConns
+        rw [hA', hA, htx2]
+        exact List.mem_append_left _ (List.mem_append_left _ he)
+      · intro e he
+        rcases hk2 with hk2 | hk2
+        · exact absurd hk2 hbad
+        · rcases hk2 e (by rw [hks2]; exact he) with h3 | ⟨h3, h3'⟩
+          · rcases hk3 with hk3 | hk3
+            · exact Or.inl (by show e ∈ s5.ksConns; rw [hwn hk3]; exact h3)
+            · rcases hw.2 e h3 with h4 | ⟨h4, h4'⟩
+              · exact Or.inl h4
+              · exact Or.inr (Or.inr ⟨h4, by rw [← hin2, ← hk3]; exact h4'⟩)
+          · exact Or.inr (Or.inr ⟨isClosed_ext hx4 h3, by rw [← hin2]; exact h3'⟩)
+      · right
+        show s5.nsCur ≤ s5.nsCtx
+        rw [hns4.nsCur, hns4.nsCtx, hns3.nsCur, hns3.nsCtx, hctx2]; exact Nat.le_refl _
+      · intro hkt hin
+        right
+        show s5.isInTransaction = true
+        rw [hin4]; exact hk4 hkt (by rw [hin2]; exact hin)
 
-theorem writeResponse_none (r : Resp) (hc : s.continueConn = none) :
-    (writeResponse ctx r s).1 = { s with continueConn := none } := by
-  unfold writeResponse
-  simp only [hc, recycleContinueConn]
+theorem tx_sessionClose_nil (h : s.txConns = []) : (sessionClose ctx s).txConns = [] := by
+  unfold sessionClose
+  split
+  · exact h
+  · rfl
+
+theorem txConnLost_of_nil (htx : s.txConns = []) (hks : s.ksConns = []) : txConnLost s = false := by
+  simp [txConnLost, htx, hks, CMap.vals]
 
 /-- COMMIT, ROLLBACK and autocommit=1 outside keep-session mode leave no transaction connection -/
 theorem endTx_runCommand (hks : ctx.cfg.ks = false) (b : Body)
@@ -613,7 +716,9 @@ theorem endTx_runCommand (hks : ctx.cfg.ks = false) (b : Body)
   have hbq : (b == Body.quit) = false := by rcases hb with hb | hb | hb <;> subst hb <;> rfl
   simp only [Bool.not_true, Bool.false_eq_true, if_false, hbq, Bool.false_or,
     shouldClear_false (ctx := ctx) (s := { s3 with continueConn := none }) (Or.inl hks)]
-  exact h3t
+  split
+  · exact tx_sessionClose_nil h3t
+  · exact h3t
 
 /-! ## The connections COMMIT is sent to -/
 
@@ -671,7 +776,7 @@ theorem callsOn_eachCommitTx (ctx : Ctx) (m : Bool → Bool → Bool) :
 /-- outside keep-session mode, with no streamed result pending: the world after
     one command is the world `executeCommand` leaves -/
 theorem runCommand_w_noks (hks : ctx.cfg.ks = false) (b : Body) (hb : b = .commit ∨ b = .rollback ∨ b = .ac true)
-    (hcont : s.continueConn = none) :
+    (hcont : s.continueConn = none) (hksn : s.ksConns = []) :
     ∃ s2 : St, s2.w = s.w ∧ s2.txConns = s.txConns ∧ s2.ksConns = s.ksConns ∧
       (runCommand ctx b s).1.w = (executeCommand ctx b s2).1.w := by
   unfold runCommand
@@ -684,17 +789,23 @@ theorem runCommand_w_noks (hks : ctx.cfg.ks = false) (b : Body) (hb : b = .commi
     rw [← hs2]; split <;> exact ⟨hcont, rfl, rfl, rfl⟩
   refine ⟨s2, hc2.2.1, hc2.2.2.1, hc2.2.2.2, ?_⟩
   simp only [shouldClear_false (ctx := ctx) (s := s2) (Or.inl hks), Bool.false_eq_true, if_false]
-  have hex : (executeCommand ctx b s2).1.continueConn = none ∧ (executeCommand ctx b s2).2 ≠ .badconn := by
+  have hk2 : s2.ksConns = [] := hc2.2.2.2.trans hksn
+  have hex : (executeCommand ctx b s2).1.continueConn = none ∧ (executeCommand ctx b s2).2 ≠ .badconn ∧
+      (executeCommand ctx b s2).1.txConns = [] ∧ (executeCommand ctx b s2).1.ksConns = [] := by
     rcases hb with hb | hb | hb <;> subst hb
-    · exact ⟨hc2.1, by simp only [executeCommand]; split <;> simp⟩
-    · exact ⟨hc2.1, by simp only [executeCommand]; split <;> simp⟩
-    · refine ⟨?_, by simp only [executeCommand]; split <;> simp⟩
-      show (handleSetAutoCommit ctx true s2).1.continueConn = none
-      simp [handleSetAutoCommit, hc2.1]
+    · exact ⟨hc2.1, by simp only [executeCommand]; split <;> simp, rfl, hk2⟩
+    · exact ⟨hc2.1, by simp only [executeCommand]; split <;> simp, rfl, hk2⟩
+    · refine ⟨?_, by simp only [executeCommand]; split <;> simp, ?_, ?_⟩
+      · show (handleSetAutoCommit ctx true s2).1.continueConn = none
+        simp [handleSetAutoCommit, hc2.1]
+      · show (handleSetAutoCommit ctx true s2).1.txConns = []
+        simp [handleSetAutoCommit]
+      · show (handleSetAutoCommit ctx true s2).1.ksConns = []
+        simp [handleSetAutoCommit, hk2]
   generalize executeCommand ctx b s2 = p3 at hex
   obtain ⟨s3, r⟩ := p3
-  obtain ⟨h3c, h3r⟩ := hex
-  simp only at h3c h3r ⊢
+  obtain ⟨h3c, h3r, h3t, h3k⟩ := hex
+  simp only at h3c h3r h3t h3k ⊢
   have hdel : (writeResponse ctx r s3).2 = true := by
     unfold writeResponse; simp only [bne_iff_ne, ne_eq, decide_eq_true_eq]; exact h3r
   have hw := writeResponse_none (ctx := ctx) r h3c
@@ -704,32 +815,225 @@ theorem runCommand_w_noks (hks : ctx.cfg.ks = false) (b : Body) (hb : b = .commi
   subst hdel; subst hw
   have hbq : (b == Body.quit) = false := by rcases hb with hb | hb | hb <;> subst hb <;> rfl
   simp only [Bool.not_true, Bool.false_eq_true, if_false, hbq, Bool.false_or,
-    shouldClear_false (ctx := ctx) (s := { s3 with continueConn := none }) (Or.inl hks)]
+    shouldClear_false (ctx := ctx) (s := { s3 with continueConn := none }) (Or.inl hks),
+    txConnLost_of_nil (s := { s3 with continueConn := none }) h3t h3k]
 
 /-- the command operations -/
 def Body.isCommand : Body → Bool
   | .nsc | .disc => false
   | _ => true
 
-theorem grow_step (cfg : Cfg) (op : Op) (hT : QHOp q op) (hp : q.p = true)
-    (hcmd : op.body.isCommand = true) (hq : op.body ≠ .quit)
-    (h : Idle q cfg s) (hncl : s.closed = false) (hnr : cfg.ks = false ∨ s.nsCur ≤ s.nsOld) :
-    (∃ B, (step cfg s op).1.ksConns = s.ksConns ++ B) ∧
-    (op.body.keepsTx = true → ∃ A, (step cfg s op).1.txConns = s.txConns ++ A) ∧
-    (step cfg s op).1.closed = false ∧ (step cfg s op).1.nsCur ≤ (step cfg s op).1.nsOld := by
-  have h0 : Idle q cfg { s with w := { s.w with trace := [] } } := idle_of_eq_fields h rfl rfl rfl rfl rfl rfl rfl
-  have key := grow_runCommand (ctx := { cfg := cfg, ord := op.ord, faults := op.faults }) rfl (hT.toCtx cfg) hp
-    op.body hq h0 hncl hnr
-  have e : (step cfg s op).1 = (runCommand { cfg := cfg, ord := op.ord, faults := op.faults } op.body
+theorem step_command (cfg : Cfg) (op : Op) (hcmd : op.body.isCommand = true) (hncl : s.closed = false) :
+    (step cfg s op).1 = (runCommand { cfg := cfg, ord := op.ord, faults := op.faults } op.body
       { s with w := { s.w with trace := [] } }).1 := by
+  unfold step
+  dsimp only
+  simp only [hncl, Bool.false_eq_true, if_false]
+  split
+  · rename_i hb; rw [hb] at hcmd; simp [Body.isCommand] at hcmd
+  · rename_i hb; rw [hb] at hcmd; simp [Body.isCommand] at hcmd
+  · rfl
+
+/-- one operation of a history (a command, a disconnect or a reload) on an open
+    session with no reload pending: what it leaves of the two maps -/
+theorem keep_step (cfg : Cfg) (op : Op) (hT : QHOp q op)
+    (h : Idle q cfg s) (hncl : s.closed = false) (hnr : cfg.ks = false ∨ s.nsCur ≤ s.nsOld)
+    (hcmd : op.body.isCommand = true) :
+    CmdResult op.body s (step cfg s op).1 := by
+  have h0 : Idle q cfg { s with w := { s.w with trace := [] } } := idle_of_eq_fields h rfl rfl rfl rfl rfl rfl rfl
+  have key := keep_runCommand (ctx := { cfg := cfg, ord := op.ord, faults := op.faults }) rfl (hT.toCtx cfg)
+    op.body h0 hncl hnr
+  rw [step_command cfg op hcmd hncl]
+  exact ⟨key.tx, key.ks, key.ns, key.intx⟩
+
+/-- keep-session, a reload pending, inside a transaction: whatever the command,
+    the session is closed afterwards (and the command is answered with an error) -/
+theorem closed_runCommand_reload_in_tx (b : Body) (hks : ctx.cfg.ks = true) (hns : s.nsCur > s.nsOld)
+    (hin : s.isInTransaction = true) (hcont : s.continueConn = none) (hncl : s.closed = false) :
+    (runCommand ctx b s).2 = .err ∧ (runCommand ctx b s).1.closed = true := by
+  have hin' : (s.inTrans || !s.autocommit) = true := hin
+  unfold runCommand
+  simp only [clearKsConns, shouldClear, St.isInTransaction, hks, hin', hns, writeResponse, hcont,
+    recycleContinueConn, sessionClose, hncl, Bool.not_true, Bool.and_false, Bool.false_eq_true, if_false,
+    Bool.and_self, decide_true, if_true, Bool.or_true, Bool.true_or]
+  exact ⟨rfl, rfl⟩
+
+/-- one operation that does not end the transaction, on a session that is in a
+    transaction: afterwards the session is closed, or it is still in the
+    transaction and holds every connection it held -/
+theorem keep_step_in_tx (cfg : Cfg) (op : Op) (hT : QHOp q op) (h : Idle q cfg s)
+    (hkeep : op.body.keepsTx = true) (hin : s.isInTransaction = true) :
+    (step cfg s op).1.closed = true ∨
+    ((step cfg s op).1.isInTransaction = true ∧ (∀ e ∈ s.txConns, e ∈ (step cfg s op).1.txConns) ∧
+      (∀ e ∈ s.ksConns, e ∈ (step cfg s op).1.ksConns)) := by
+  cases hcl : s.closed with
+  | true =>
+    left
     unfold step
-    dsimp only
-    simp only [hncl, Bool.false_eq_true, if_false]
+    simp [hcl]
+  | false =>
+    cases hcmd : op.body.isCommand with
+    | true =>
+      by_cases hnr : cfg.ks = false ∨ s.nsCur ≤ s.nsOld
+      · have key := keep_step cfg op hT h hcl hnr hcmd
+        rcases key.intx hkeep hin with hc | hi
+        · exact Or.inl hc
+        · by_cases hc : (step cfg s op).1.closed = true
+          · exact Or.inl hc
+          · right
+            refine ⟨hi, ?_, ?_⟩
+            · intro e he
+              rcases key.tx hkeep e he with h1 | h1
+              · exact h1
+              · exact absurd h1 hc
+            · intro e he
+              rcases key.ks e he with h1 | h1 | ⟨_, h1⟩
+              · exact h1
+              · exact absurd h1 hc
+              · rw [hin] at h1; cases h1
+      · left
+        have hks : cfg.ks = true := by
+          cases hk : cfg.ks with
+          | true => rfl
+          | false => exact absurd (Or.inl hk) hnr
+        have hns : s.nsCur > s.nsOld := by
+          have : ¬ s.nsCur ≤ s.nsOld := fun hle => hnr (Or.inr hle)
+          omega
+        rw [step_command cfg op hcmd hcl]
+        exact (closed_runCommand_reload_in_tx (ctx := { cfg := cfg, ord := op.ord, faults := op.faults })
+          (s := { s with w := { s.w with trace := [] } }) op.body hks hns hin h.cont hcl).2
+    | false =>
+      right
+      have hb : op.body = .nsc := by
+        cases hb : op.body <;> simp_all [Body.isCommand, Body.keepsTx]
+      unfold step
+      simp only [hcl, hb, Bool.false_eq_true, if_false]
+      exact ⟨hin, fun e he => he, fun e he => he⟩
+
+/-! ## The connections ROLLBACK is sent to -/
+
+theorem conns_call_other (ctx : Ctx) (k : CK) {c d : Nat} (hne : c ≠ d) (w : World) :
+    (call ctx k c w).1.conns[d]? = w.conns[d]? := by
+  unfold call
+  split
+  · rfl
+  · simp [hne]
+
+theorem conns_recycle_other {c d : Nat} (hne : c ≠ d) (w : World) : (recycle c w).conns[d]? = w.conns[d]? := by
+  unfold recycle
+  split
+  · rfl
+  · simp [hne]
+
+theorem conns_rollbackTx_other (ctx : Ctx) {c d : Nat} (hne : c ≠ d) (w : World) :
+    (rollbackTx ctx c w).1.conns[d]? = w.conns[d]? := by
+  unfold rollbackTx
+  split
+  · exact conns_recycle_other hne w
+  · have h := conns_call_other ctx .R hne w
+    generalize call ctx .R c w = p at h
+    obtain ⟨w1, r⟩ := p
+    simp only at h ⊢
+    rw [conns_recycle_other hne, h]
+
+theorem callsOn_rollbackTx (ctx : Ctx) {c : Nat} {w : World} {cn : Conn} (hcn : w.conns[c]? = some cn)
+    (hop : cn.closed = false) : callsOn .R (rollbackTx ctx c w).1.trace = c :: callsOn .R w.trace := by
+  unfold rollbackTx
+  simp only [isClosed, hcn, hop, Bool.false_eq_true, if_false]
+  have h := callsOn_call_same ctx .R hcn
+  generalize call ctx .R c w = p at h
+  obtain ⟨w1, r⟩ := p
+  simp only at h ⊢
+  rw [callsOn_recycle]; exact h
+
+/-- ROLLBACK over connections that are all open: every one of them receives it, once, in order -/
+theorem callsOn_eachRollbackTx (ctx : Ctx) (m : Bool → Bool → Bool) :
+    ∀ (cs : List Nat) (w : World) (b : Bool), cs.Nodup →
+      (∀ c ∈ cs, ∃ cn : Conn, w.conns[c]? = some cn ∧ cn.closed = false) →
+      callsOn .R (eachConn (rollbackTx ctx) m cs (w, b)).1.trace = cs.reverse ++ callsOn .R w.trace := by
+  intro cs
+  induction cs with
+  | nil => intro w b _ _; simp [eachConn]
+  | cons c cs ih =>
+    intro w b hnd hv
+    obtain ⟨cn, hcn, hop⟩ := hv c (by simp)
+    have h1 := callsOn_rollbackTx ctx hcn hop
+    have hnd' := List.nodup_cons.1 hnd
+    have hv' : ∀ d ∈ cs, ∃ dn : Conn, (rollbackTx ctx c w).1.conns[d]? = some dn ∧ dn.closed = false := by
+      intro d hd
+      obtain ⟨dn, hdn, hdo⟩ := hv d (by simp [hd])
+      have hne : c ≠ d := fun e => hnd'.1 (e ▸ hd)
+      exact ⟨dn, by rw [conns_rollbackTx_other ctx hne]; exact hdn, hdo⟩
+    simp only [eachConn]
     split
-    · rename_i hb; rw [hb] at hcmd; simp [Body.isCommand] at hcmd
-    · rename_i hb; rw [hb] at hcmd; simp [Body.isCommand] at hcmd
-    · rfl
-  rw [e]
-  exact key
+    · rename_i w1 r heq
+      rw [heq] at h1 hv'
+      rw [ih w1 _ hnd'.2 hv', h1]; simp
+    · rename_i w1 heq
+      rw [heq] at h1 hv'
+      rw [ih w1 _ hnd'.2 hv', h1]; simp
+
+/-! ## An open session in a transaction holds no closed connection -/
+
+/-- between two commands: the connections of an open session that is in a
+    transaction are all open (`txConnLost` closed the session otherwise) -/
+def HeldOpen (s : St) : Prop :=
+  s.closed = false → s.isInTransaction = true → ∀ c ∈ s.txConns.vals ++ s.ksConns.vals, isClosed c s.w = false
+
+theorem heldOpen_of_not_lost (h : txConnLost s = false) (hin : s.isInTransaction = true) :
+    ∀ c ∈ s.txConns.vals ++ s.ksConns.vals, isClosed c s.w = false := by
+  intro c hc
+  simp only [txConnLost, hin, Bool.true_and] at h
+  cases hcl : isClosed c s.w with
+  | false => rfl
+  | true =>
+    have : ((s.txConns.vals ++ s.ksConns.vals).any fun c => isClosed c s.w) = true :=
+      List.any_eq_true.2 ⟨c, hc, hcl⟩
+    rw [h] at this; cases this
+
+theorem heldOpen_runCommand (b : Body) : HeldOpen (runCommand ctx b s).1 := by
+  unfold runCommand
+  dsimp only
+  generalize clearKsConns ctx { s with nsCtx := s.nsCur } = s1
+  generalize (if !s1.isInTransaction then { s1 with nsOld := s1.nsCtx } else s1) = s2
+  generalize (if shouldClear ctx s2 then (s2, Resp.err) else executeCommand ctx b s2) = p3
+  obtain ⟨s3, r⟩ := p3
+  generalize writeResponse ctx r s3 = p4
+  obtain ⟨s4, delivered⟩ := p4
+  dsimp only
+  split
+  · intro hc; rw [closed_sessionClose] at hc; cases hc
+  · by_cases hC : (b == Body.quit || shouldClear ctx s4 || txConnLost s4) = true
+    · rw [if_pos hC]
+      intro hc
+      have : (sessionClose ctx s4).closed = true := closed_sessionClose
+      simp only at hc
+      rw [this] at hc; cases hc
+    · rw [if_neg hC]
+      intro _ hin
+      have hl : txConnLost s4 = false := by
+        cases h : txConnLost s4 with
+        | false => rfl
+        | true => simp [h] at hC
+      exact heldOpen_of_not_lost hl hin
+
+theorem heldOpen_step (cfg : Cfg) (op : Op) (h : HeldOpen s) : HeldOpen (step cfg s op).1 := by
+  unfold step
+  dsimp only
+  split
+  · rename_i hcl
+    intro hc; simp only at hc; rw [hcl] at hc; cases hc
+  · split
+    · exact h
+    · intro hc; rw [closed_sessionClose] at hc; cases hc
+    · exact heldOpen_runCommand _
+
+theorem heldOpen_run (cfg : Cfg) (ops : List Op) : HeldOpen (run cfg ops) := by
+  have : ∀ (ops : List Op) (s : St), HeldOpen s → HeldOpen (ops.foldl (fun s op => (step cfg s op).1) s) := by
+    intro ops
+    induction ops with
+    | nil => intro s h; exact h
+    | cons op ops ih => intro s h; exact ih _ (heldOpen_step cfg op h)
+  exact this ops {} (fun _ _ c hc => by simp [CMap.vals] at hc)
 
 end GaeaVerif.SessionConns
